@@ -245,9 +245,9 @@ func symBinop(fr *frame, op token.Token, t types.Type, x, y value) value {
 		case token.QUO:
 			return mkSym(ts.fpBin("fp.div", a, c), k)
 		case token.EQL:
-			return boolVal(ts.fpCmp("fp.eq", a, c))
+			return boolVal(ts.Eq(a, c))
 		case token.NEQ:
-			return boolVal(ts.Not(ts.fpCmp("fp.eq", a, c)))
+			return boolVal(ts.Not(ts.Eq(a, c)))
 		case token.LSS:
 			return boolVal(ts.fpCmp("fp.lt", a, c))
 		case token.LEQ:
